@@ -81,7 +81,8 @@ RULE = ("one case = one real generator call (mask or return_acs), one real `_poi
         "compared with the model; generators x modes x ranks 3..5 x rows/cols from {8..80} incl. odd, even, non-square, single "
         "frame; oracle additionally: argument forms (shape as tuple/list/torch.Size/ndarray, positional/keyword, mode and CIRCUS "
         "scheme as enum/string), 10-call histories on one object sharing some but not all of (seed, rank, rows, cols, frames, "
-        "return_acs), the real callers (CreateSamplingMask, apply_mask, config-driven build with and without mode); "
+        "return_acs), an edge-seed ladder for every generator and mode (0, 1, 2^31-2 … 2^32-1, 2^32, -1, numpy integers, tuples/lists "
+        "with large entries; mask and ACS; judged: contract shape or ValueError, never another exception), the real callers (CreateSamplingMask, apply_mask, config-driven build with and without mode); "
         "non-trivial = a generator call that returned a mask with at least two rows and columns (kernels: a non-degenerate "
         "input; _poisson: at least one accepted candidate or an overrun); distinct = distinct protocol line")
 PENDING_FINDINGS: list[str] = ["generator-crashes/VariableDensityPoisson/active-list-overrun"]   # listed as known: for C04 by the lead (same key as C07)
@@ -988,6 +989,46 @@ def forms_sites_oracle(ctx: Ctx, seen: set, deep: bool):
                                         {"op": "history", "spec": spec, "calls": calls[:k + 1], "observed": pair["reused"],
                                          "expected": pair["fresh"]})
                     break
+        # ---- edge seeds (every mode): 0, 1, around 2**31 and 2**32, numpy integers, tuples / lists with large entries, for the
+        #      mask and the ACS request: a mask of the contract shape, or ValueError for a seed the generator rejects — never
+        #      another exception
+        for mode in G.modes_of(name):
+            spec = None
+            for _ in range(20):
+                c = G.sample_case(rng, name, mode=mode, small=True, rank=4)
+                if c is not None and c["shape"][-4] >= 2 and (name not in ("VariableDensityPoisson", "KtRadial")
+                                                               or max(c["shape"][-3:-1]) <= 13):
+                    spec = c
+                    break
+            if spec is None:
+                continue
+            spec.pop("extra", None)
+            r = sites_worker().run(dict(spec, kind="seeds"), 240.0)
+            ctx.count(("seeds", json.dumps(spec, sort_keys=True)), bool(r.get("ok")),
+                      bucket=f"oracle/edge-seeds/{name}/{mode}" + ("" if r.get("ok") else "/hang" if r.get("hang") else "/error"))
+            if r.get("hang"):
+                key = f"hang-{name}"
+                if key not in seen:
+                    seen.add(key)
+                    yield Violation(key, f"{name} ({mode}): a call with an edge seed did not return",
+                                    {"op": "seeds", "spec": spec, "observed": "hang"})
+                continue
+            if not r.get("ok"):
+                continue
+            exp = expected_shape(mode, spec["shape"])
+            for item in r["seeds"]:
+                res = item["res"]
+                good = (res.get("ok") and res["shape"] == exp and res["dtype"] == "torch.bool") or \
+                       (not res.get("ok") and res.get("err") == "ValueError")
+                if not good:
+                    key = f"edge-seed-{name}-" + (res.get("err") or "shape")
+                    if key not in seen:
+                        seen.add(key)
+                        yield Violation(key, f"{name} ({mode}) shape {spec['shape']} seed {item['seed']} return_acs={item['return_acs']}: "
+                                        f"{res.get('err') or res.get('shape')}: {res.get('msg', '')} — expected a mask of shape {exp} "
+                                        "or ValueError for a rejected seed",
+                                        {"op": "seeds", "spec": spec, "seed": item["seed"], "return_acs": item["return_acs"],
+                                         "observed": res})
         # ---- call sites
         spec = small_spec(rng, name, one_frame=rng.random() < 0.3)
         if spec is not None:
@@ -1159,6 +1200,19 @@ def replay(rep: dict) -> bool:
             return True
         d, base = r["forms"].get(rep["form"], {}), r["forms"]["tuple/pos"]
         return (not _same(d, base)) or (base.get("ok") and base["shape"] != expected_shape(rep["spec"]["mode"], rep["spec"]["shape"]))
+    if rep.get("op") == "seeds":
+        r = sites_worker().run(dict(rep["spec"], kind="seeds", ladder=[rep["seed"]] if "seed" in rep else None), 240.0) \
+            if "seed" in rep else sites_worker().run(dict(rep["spec"], kind="seeds"), 240.0)
+        if not r.get("ok"):
+            return True
+        exp = expected_shape(rep["spec"]["mode"], rep["spec"]["shape"])
+        for item in r["seeds"]:
+            res = item["res"]
+            if "return_acs" in rep and item["return_acs"] != rep["return_acs"]:
+                continue
+            if not ((res.get("ok") and res["shape"] == exp) or (not res.get("ok") and res.get("err") == "ValueError")):
+                return True
+        return False
     if rep.get("op") == "history":
         r = sites_worker().run(dict(rep["spec"], kind="history", calls=rep["calls"]), 180.0)
         if not r.get("ok"):
